@@ -4,6 +4,8 @@
     Run with the target directory as working directory. *)
 Require Import ExtrOcamlBasic.
 From Coq Require Import List NArith ZArith.
-From PQ Require Import Bytes BitExpr Bitpack.
+From PQ Require Import Bytes BitExpr Bitpack Varint RleSpec Rle.
 
-Extraction "model.ml" Bitpack.pack Bitpack.unpack Bitpack.spec_pack.
+Extraction "model.ml"
+  Bitpack.pack Bitpack.unpack Bitpack.spec_pack
+  Rle.rle_encode Rle.rle_read RleSpec.hybrid_decode_framed RleSpec.runs_values RleSpec.hybrid_encode.
